@@ -247,8 +247,8 @@ func execCase(c *core.Ctx, env *execEnv, fo *forest, s execStream, idx int) {
 	laterMarker := bytes.Contains(packed[Lt+len(refMarker):], []byte(refMarker))
 	packed = nil
 
-	// 2. execute the packed file: stdin closed, stop waiting after 30 s
-	ctx, cancel = context.WithTimeout(context.Background(), 30*time.Second)
+	// 2. execute the packed file: stdin closed, stop waiting after 180 s
+	ctx, cancel = context.WithTimeout(context.Background(), 180*time.Second)
 	defer cancel()
 	w := &bannerWatch{cancel: cancel}
 	var stderr bytes.Buffer
@@ -287,7 +287,7 @@ func execCase(c *core.Ctx, env *execEnv, fo *forest, s execStream, idx int) {
 		c.Violation(geo.missKey(L), fmt.Sprintf("the packed executable did not find its archive and dropped into the interactive console (banner %q on stdout; marker at offset %d = %s read, offset %d; '#' before it in that block: %v)",
 			consoleBanner, L, geo.where, geo.off, geo.hash), s.stream, idx, detail(obs))
 	case deadline:
-		c.Inconclusive("packed executable neither exited nor printed the console banner within 30 s (stopped waiting)", s.stream, idx, detail(obs))
+		c.Inconclusive("packed executable neither exited nor printed the console banner within 180 s (stopped waiting)", s.stream, idx, detail(obs))
 	case strings.Contains(stderr.String(), "\ngoroutine ") && strings.Contains(stderr.String(), "panic: "):
 		c.Event("exec.panic", 1)
 		st := stderr.String()
